@@ -83,6 +83,19 @@ pub fn run_c15_scheme<S: Sch>(tier: Tier, rep: &mut Report) {
                 pool.push(member(y, format!("clone_from_slice({o})")));
             }
         }
+        // clone_from into a record of the SAME key and SAME seq but other content
+        {
+            let mut t = e.clone();
+            if t.insert("c15y", &7u8, &k[n.m.owner]).is_ok() && t.set_seq(e.seq(), &k[n.m.owner]).is_ok() {
+                let mut x = t.clone();
+                x.clone_from(e);
+                pool.push(member(x, format!("clone_from-into-same-key-same-seq({o})")));
+                let mut v = vec![t.clone()];
+                v.clone_from(&vec![e.clone()]);
+                pool.push(member(v.pop().unwrap(), format!("Vec::clone_from-into-same-key-same-seq({o})")));
+                pool.push(member(t, format!("same-key-same-seq-other-content({o})")));
+            }
+        }
         if let Ok(Ok((d, _))) = real::decode::<S::K>(&real::encode(e)) {
             pool.push(member(d, format!("decode(encode({o}))")));
         }
@@ -176,4 +189,69 @@ pub fn run_c15_scheme<S: Sch>(tier: Tier, rep: &mut Report) {
     rep.stats.sample(json!({"scheme": S::NAME, "pool": n, "classes": classes.len(), "example_member": pool.get(3).map(|m| m.origin.clone())}));
     rep.viols.extend(viols);
     rep.stats.exhaustive = true;
+}
+
+/// CombinedKey records that hold BOTH key entries and are signed by either key: same seq and pairs,
+/// different node id and signature. compare_content must be true for them, == false.
+pub fn run_c15_cross(rep: &mut Report) {
+    use enr::CombinedKey;
+    let mut scratch = Report::default();
+    let ks = [CombSecpS::mk_key(0), CombEdS::mk_key(0), CombSecpS::mk_key(1), CombEdS::mk_key(1)];
+    let mut pool: Vec<Member<CombinedKey>> = vec![];
+    for i in inits().iter().filter(|i| ["minimal", "all6+custom"].contains(&i.label.as_str())) {
+        let Some(n) = hist::make_init::<CombSecpS>(i, &mut scratch) else { continue };
+        let mut both = n.enr.clone();
+        // write the ed25519 key of k0 as an ordinary pair, signed by the secp key
+        if both.insert("ed25519", &CombEdS::pub_raw(0).as_slice(), &ks[0]).is_err() {
+            continue;
+        }
+        let seq = both.seq();
+        pool.push(member(both.clone(), format!("both-keys/signed-by-secp({})", i.label)));
+        for (l, ki) in [("ed-k0", 1usize), ("secp-k0-again", 0)] {
+            let mut r = both.clone();
+            if r.set_seq(seq, &ks[ki]).is_ok() {
+                pool.push(member(r, format!("both-keys/re-signed-by-{l}({})", i.label)));
+            }
+        }
+        let mut other = both.clone();
+        if other.set_seq(seq + 1, &ks[1]).is_ok() {
+            pool.push(member(other, format!("both-keys/seq+1-by-ed({})", i.label)));
+        }
+        let mut other = both.clone();
+        if other.insert("c15", &1u8, &ks[1]).is_ok() && other.set_seq(seq, &ks[1]).is_ok() {
+            pool.push(member(other, format!("both-keys/other-content-same-seq-by-ed({})", i.label)));
+        }
+    }
+    let n = pool.len();
+    for i in 0..n {
+        for j in 0..n {
+            let (a, b) = (&pool[i], &pool[j]);
+            let eq = a.e == b.e;
+            let content_eq = a.seq == b.seq && a.pairs == b.pairs;
+            let mut bad = |clause: &str| {
+                rep.viols.push(Viol {
+                    prop: "C15",
+                    sig: format!("C15|combined cross-scheme|{clause}"),
+                    what: format!("{clause}: a = {} ; b = {}", a.origin, b.origin),
+                    rank: 1,
+                    replay: json!({"engine":"pairs","scheme":"combined","a_hex":hex::encode(&a.enc),"b_hex":hex::encode(&b.enc),"a":a.origin,"b":b.origin,"clause":clause}),
+                });
+            };
+            if eq != (a.enc == b.enc) {
+                bad("== disagrees with equality of the encodings");
+            }
+            if eq && a.hash != b.hash {
+                bad("equal records hash differently");
+            }
+            if a.e.compare_content(&b.e) != content_eq {
+                bad(if content_eq { "compare_content is false for records with the same seq and pairs" } else { "compare_content is true for records that differ in seq or pairs" });
+            }
+        }
+    }
+    rep.stats.states += n as u64;
+    rep.stats.transitions += (n * n) as u64;
+    rep.stats.class_n("c15:cross-scheme-pool", n as u64);
+    if pool.iter().enumerate().any(|(i, a)| pool.iter().skip(i + 1).any(|b| a.seq == b.seq && a.pairs == b.pairs && a.enc != b.enc)) {
+        rep.stats.class("c15:cross:same-content-different-signer");
+    }
 }
